@@ -31,6 +31,7 @@ inductive Tok
   | var (i j : Int)              -- `$` QName (fused): queue positions of namespace and local name
   | name (k : NameKind) (j : Int)  -- NCName, with the queue position `pushCurrentTokenOnOpCodeMap` pushes
   | star | lpar | rpar | minus | plus | eq | bang | lt | gt | bar
+  | neq | leq | geq              -- `!=` `<=` `>=` as single tokens (only when `compoundOperatorTokens`)
 deriving Repr, DecidableEq, BEq
 
 /-! ## XPathExpression primitives -/
@@ -262,8 +263,17 @@ def recogAdd (s : St) : Option OpHit :=
   | some .minus => some ⟨eOP_MINUS, s.adv, s.next.2⟩
   | _ => none
 
-/-- `RelationalExpr`: `<`, `<` `=`, `>`, `>` `=` -/
+/-- `RelationalExpr`.  As found: `<` then an optional `=` token (so `< =` with white space is accepted); with
+`compoundOperatorTokens` (read from the source): `<` / `<=` / `>` / `>=` are single tokens. -/
 def recogRel (s : St) : Option OpHit :=
+  if compoundOperatorTokens then
+    match s.cur with
+    | some .lt => some ⟨eOP_LT, s.adv, s.next.2⟩
+    | some .leq => some ⟨eOP_LTE, s.adv, s.next.2⟩
+    | some .gt => some ⟨eOP_GT, s.adv, s.next.2⟩
+    | some .geq => some ⟨eOP_GTE, s.adv, s.next.2⟩
+    | _ => none
+  else
   match s.cur with
   | some .lt =>
     let s1 := s.adv
@@ -273,8 +283,14 @@ def recogRel (s : St) : Option OpHit :=
     if s1.cur == some .eq then some ⟨eOP_GTE, s1.adv, s1.next.2⟩ else some ⟨eOP_GT, s1, s.next.2⟩
   | _ => none
 
-/-- `EqualityExpr`: `!` `=` (with lookahead), `=` -/
+/-- `EqualityExpr`: as found `!` `=` (with lookahead), `=`; with `compoundOperatorTokens`: the token `!=`, `=` -/
 def recogEq (s : St) : Option OpHit :=
+  if compoundOperatorTokens then
+    match s.cur with
+    | some .neq => some ⟨eOP_NOTEQUALS, s.adv, s.next.2⟩
+    | some .eq => some ⟨eOP_EQUALS, s.adv, s.next.2⟩
+    | _ => none
+  else
   match s.cur with
   | some .bang =>
     if s.look1 == some .eq then some ⟨eOP_NOTEQUALS, s.adv.adv, s.adv.next.2⟩ else none
